@@ -1,5 +1,6 @@
 import RlModel.Lemmas.Exec
 import RlModel.Lemmas.ExecNull
+import RlModel.Lemmas.ExecAgg
 import RlModel.Lemmas.ValOrderRel
 /-!
 C02 — query answers follow standard SQL semantics on the core relational subset.
@@ -296,55 +297,39 @@ theorem exec_refines_spec_rowpath (k : AggKind) (hk : k = .count ∨ k = .rowCou
   · exact rowpath_min_eq_spec vs
   · exact rowpath_max_eq_spec vs
 
-/-- FULL statement for SUM (false): `∀ vs, rowPathVal .sum vs = aggVal .sum vs`.
-Forced hypothesis: no NULL follows a non-NULL value (here: `k` leading NULLs, then INT values). -/
-theorem exec_refines_spec_rowpath_sum_partial (k : Nat) (ws : List Int) :
-    rowPathVal .sum (List.replicate k Val.null ++ ws.map Val.i32) =
-      aggVal .sum (List.replicate k Val.null ++ ws.map Val.i32) := rowpath_sum_partial k ws
+/-- ROW path SUM (hash_agg, sort_agg) = spec on every INT column — unconditional since the `fix:`
+commit "a NULL input leaves a running SUM unchanged" (before it: only when no NULL followed a value). -/
+theorem exec_refines_spec_rowpath_sum (vs : List Val) (h : I32Col vs) :
+    rowPathVal .sum vs = aggVal .sum vs := rowpath_sum_eq_spec vs h
 
-/-- witness: grouped SUM over 5, NULL, 3 is 3 (`state + NULL = NULL`, then the sum restarts). -/
-theorem exec_refines_spec_rowpath_sum_unsound :
-    ¬ (∀ vs : List Val, rowPathVal .sum vs = aggVal .sum vs) := by
-  intro h
-  have := h [.i32 5, .null, .i32 3]
-  revert this; decide
+/-- regression input (witness of the former `…_rowpath_sum_unsound`): grouped SUM over 5, NULL, 3. -/
+theorem exec_refines_spec_rowpath_sum_regression :
+    rowPathVal .sum [.i32 5, .null, .i32 3] = .i32 8 ∧ rowPathVal .sum [.i32 5, .null] = .i32 5 := by decide
 
-example : rowPathVal .sum [.i32 5, .null, .i32 3] = .i32 3 := by decide
+example : I32Col [.i32 5, .null, .i32 3] := by
+  intro v hv; simp at hv; rcases hv with rfl | rfl | rfl <;> simp
 
-/-- CHUNK path (simple_agg) SUM, full statement (false): equal to the spec for every stream of
-chunks.  Witness 1: one EMPTY chunk (an all-filtered input) gives a typed 0 instead of NULL. -/
-theorem exec_refines_spec_chunkpath_sum_unsound :
-    ¬ (∀ (ty : Ty) (cols : List (List Val × List Int)),
-        chunkPathVal .sum ty cols = aggVal .sum (cols.flatMap (·.1))) := by
-  intro h
-  have := h .i32 [([], [])]
-  revert this; decide
+/-- CHUNK path SUM (simple_agg) = spec on every stream of INT chunks — unconditional since the `fix:`
+commits "ArrayImpl::sum adds only the non-null slots" and "SUM of no non-null value is NULL". -/
+theorem exec_refines_spec_chunkpath_sum (cols : List (List Val × List Int)) (hc : ∀ c ∈ cols, I32Col c.1) :
+    chunkPathVal .sum .i32 cols = aggVal .sum (cols.flatMap (·.1)) := chunkpath_sum_eq_spec cols hc
 
-/-- Witness 2: the raw slot under a NULL is added (`sum(v+1)` over 5, NULL has raw slots 6, 1). -/
-theorem exec_refines_spec_chunkpath_sum_raw_unsound :
-    chunkPathVal .sum .i32 [([.i32 6, .null], [6, 1])] ≠ aggVal .sum [.i32 6, .null] := by decide
+/-- regression inputs (witnesses of the former `…_chunkpath_sum_unsound` / `…_raw_unsound`): one EMPTY
+chunk (an all-filtered input) gives NULL; the raw slot under a NULL (here 1) is not added. -/
+theorem exec_refines_spec_chunkpath_sum_regression :
+    chunkPathVal .sum .i32 [([], [])] = .null ∧
+    chunkPathVal .sum .i32 [([.i32 6, .null], [6, 1])] = aggVal .sum [.i32 6, .null] ∧
+    chunkPathVal .sum .i32 [([.i32 5], [5]), ([.null, .null], [0, 0])] = .i32 5 := by decide
 
-/-- … and it is the spec when the stream is non-empty, the raw slots are the values (0 under
-NULL) and some value is not NULL: stated for a single chunk of INT values. -/
-theorem exec_refines_spec_chunkpath_sum_partial (w : Int) (ws : List Int) :
-    chunkPathVal .sum .i32 [((w :: ws).map Val.i32, w :: ws)] = aggVal .sum ((w :: ws).map Val.i32) := by
-  have hs : ∀ X, aggVal .sum X = aggSum X := fun _ => rfl
-  rw [hs]
-  unfold chunkPathVal initAgg evalAgg aggSum
-  have hnn : nonNull ((w :: ws).map Val.i32) = (w :: ws).map Val.i32 := by
-    have := nonNull_replicate_append 0 (w :: ws); simpa using this
-  rw [hnn]
-  have := intsOf_map_i32 (w :: ws)
-  simp only [List.map_cons] at this ⊢
-  rw [this]
-  simp [AggState.result, addExt, Val.isNull, arrSum, zeroOf, Val.withInt]
+/-- COUNT(DISTINCT) = spec on both paths — since the `fix:` commit "COUNT(DISTINCT x) ignores NULL". -/
+theorem exec_refines_spec_count_distinct (vs : List Val) (ty : Ty) (cols : List (List Val × List Int)) :
+    rowPathVal .countDistinct vs = aggVal .countDistinct vs ∧
+    chunkPathVal .countDistinct ty cols = aggVal .countDistinct (cols.flatMap (·.1)) :=
+  ⟨rowpath_count_distinct_eq_spec vs, chunkpath_count_distinct_eq_spec ty cols⟩
 
-/-- COUNT(DISTINCT), full statement (false): both paths insert NULL into the value set. -/
-theorem exec_refines_spec_count_distinct_unsound :
-    ¬ (∀ vs : List Val, rowPathVal .countDistinct vs = aggVal .countDistinct vs) := by
-  intro h
-  have := h [.null]
-  revert this; decide
+/-- regression input (witness of the former `…_count_distinct_unsound`). -/
+theorem exec_refines_spec_count_distinct_regression :
+    rowPathVal .countDistinct [.null] = .i32 0 ∧ rowPathVal .countDistinct [.null, .i32 1, .i32 1] = .i32 1 := by decide
 
 /-- hash join (every type) refines the spec's equi-join under `KeysComparable`.  Since the `fix:`
 commit "a join key containing NULL never matches" NULL keys satisfy the hypothesis by themselves
